@@ -29,7 +29,7 @@ def run_impl(script, ro, cache0, flags, limits, contracts, plugins=None):
     env.Rand.reset(RAND_SEED)
     cv = dict(ro or {})
     for k, v in (cache0 or {}).items():
-        cv[k] = list(v)
+        cv[k] = list(v) if type(v) is list else v      # a tuple-valued entry stays a tuple (immutable; the VM must take both)
     try:
         tape, stack, cache = F.run_script(
             script, cv, contracts=dict(contracts or {}), additional_flags=dict(flags or {}),
